@@ -1,13 +1,15 @@
 """C14 -- a reused Interpreter behaves like a fresh one.
 
-spec/Reuse.tla (state groups vars / per-run / rand; Run = transcription of the 38-mode AWK program in
+spec/Reuse.tla (state groups vars / per-run / rand; Run = transcription of the 43-mode AWK program in
 harness/c14/program.go; ExecSpec = the statement, ExecCode(Clears) = newexecute.go), MC_Reuse (ExecCode refines
 ExecSpec; fresh-after-reset; only vars carry over -- to a fixpoint), Gen_Reuse (all histories of <= MaxRuns runs with
-reset variants, exported with the predicted output; eight families: the 16 original kinds; standard input through
+reset variants, exported with the predicted output; ten families: the 16 original kinds; standard input through
 every reading path with an input of its own per run; exit N outside END followed by a failing END; Execute /
 ExecuteContext with contexts that are done after the call returned; the range pattern opened and the run ended in
 every way; rand / srand in every order with every reset variant before any run; per-run Args / Argv0 / Environ and
-programs that write ARGV / ENVIRON; Chars and the sandbox flags switched per run), Trace_Reuse (random longer
+programs that write ARGV / ENVIRON; Chars and the sandbox flags switched per run; printf / sprintf %c with the same
+format strings under Chars / CONVFMT that differ per run; runs aborted deep inside nested calls followed by probes that
+nest up to the limit of 1000 calls), Trace_Reuse (random longer
 histories recorded from one real Interpreter, every run validated by TLC; rejected histories are re-run through the
 replayer).
 """
@@ -17,12 +19,13 @@ from vlib import MachineryError
 ALL_KINDS = ('{"plain", "setglob", "setfs", "csvhdr", "setmodes", "openout", "exit3", "errfunc", "errforin", "cancel", '
              '"rand", "srand5", "midfile", "match", "p_io", "p_func", "gl_plain", "gl_dash", "gl_dashvar", '
              '"exit_enderr", "exitbegin", "exit_endcancel", "sys", "pipe", "nr_plain", "sr_first", "sr_only", "sr_time", '
-             '"av_write", "av_del", "rg_close", "rg_eof", "rg_exit", "rg_err", "rg_cancel", "rg_next", "rg_nextfile", "rg_getline"}')
+             '"av_write", "av_del", "rg_close", "rg_eof", "rg_exit", "rg_err", "rg_cancel", "rg_next", "rg_nextfile", "rg_getline", '
+             '"fmtc", "dp_ok", "dp_err", "dp_exit", "dp_cancel"}')
 OLD_KINDS = ('{"plain", "setglob", "setfs", "csvhdr", "setmodes", "openout", "exit3", "errfunc", "errforin", "cancel", '
              '"rand", "srand5", "midfile", "match", "p_io", "p_func"}')
-ALL_CFGS = '{"c0", "c1", "c2", "c3", "c4", "c5", "c6", "c7"}'
-CORE = ["scanner", "ins", "outs", "sp", "record", "match", "status", "hdr", "argc", "dash", "ctx", "range"]
-FAMS = ('reuse', 'stdin', 'exit', 'ctx', 'range', 'rand', 'args', 'flags')
+ALL_CFGS = '{"c0", "c1", "c2", "c3", "c4", "c5", "c6", "c7", "c8", "c9", "c10", "c11"}'
+CORE = ["scanner", "ins", "outs", "sp", "record", "match", "status", "hdr", "argc", "dash", "ctx", "range", "depth"]
+FAMS = ('reuse', 'stdin', 'exit', 'ctx', 'range', 'rand', 'args', 'flags', 'fmt', 'depth')
 # The quick model run: 16 kinds that between them touch every component of the per-run state, and the three
 # configurations that differ in what they set (c3 / c4 differ from c0 only in how the call is made; c1 already is an
 # ExecuteContext whose context is done after the call).
@@ -37,6 +40,11 @@ MC_QUICK_NEW = {'MaxDraws': 2, 'McTags': '{1}', 'McCfgs': '{"c0", "c1", "c5", "c
                 'McKinds': '{"plain", "exit3", "rg_close", "rg_exit", "rg_eof", "rg_err", "rg_cancel", "rg_getline", "sr_first", '
                            '"sr_only", "nr_plain", "srand5", "av_write", "av_del", "sys", "midfile"}',
                 'JudgeKinds': '{"plain", "sr_first", "av_del"}', 'JudgeCfgs': '{"c0", "c5"}'}
+# The third quick model run: formatted output under Chars / CONVFMT / output mode that differ from run to run, and
+# runs aborted inside nested calls (400 deep, at the limit, beyond it) followed by probes that nest up to the limit.
+MC_QUICK_R3 = {'MaxDraws': 1, 'McTags': '{1}', 'McCfgs': '{"c0", "c6", "c8", "c10", "c11"}',
+               'McKinds': '{"plain", "setfs", "fmtc", "errfunc", "dp_ok", "dp_err", "dp_exit", "dp_cancel"}',
+               'JudgeKinds': '{"plain", "fmtc", "dp_ok"}', 'JudgeCfgs': '{"c0", "c6", "c10"}'}
 OLD24_KINDS = ('{"plain", "setglob", "setfs", "csvhdr", "setmodes", "openout", "exit3", "errfunc", "errforin", "cancel", '
                '"rand", "srand5", "midfile", "match", "p_io", "p_func", "gl_plain", "gl_dash", "gl_dashvar", '
                '"exit_enderr", "exitbegin", "exit_endcancel", "sys", "pipe"}')
@@ -65,7 +73,7 @@ for g, ks in {'globals': 'g ak', 'specials': 'FS RS OFS ORS CONVFMT OFMT SUBSEP 
               'record': 'NR FNR NF line FILENAME rec endNR', 'match': 'RSTART RLENGTH rstart', 'inputmode': 'INPUTMODE',
               'outputmode': 'OUTPUTMODE pl', 'rand': 'rand rnd sr', 'outstreams': 'wclose wline', 'rt': 'RT',
               'range': 'rg nx rgl', 'argv': 'ARGC argvc argv argvx argvw', 'environ': 'env envw', 'fields-array': 'FIELDS',
-              'chars-flag': 'chars',
+              'chars-flag': 'chars', 'format': 'pf fc',
               'instreams': 'midret mid rret rline', 'header': 'x', 'frames': 'fact forin boom loop sum',
               'stdin': 'gl gd gvr gv', 'command': 'sysrc pipe'}.items():
     for k in ks.split():
@@ -212,7 +220,7 @@ def gate_fresh_model(ctx):
 
 def run(ctx):
     q = ctx.quick
-    ctx.rule = ('a case is one history of Execute/ExecuteContext calls on ONE interp.New(program) -- each run one of 38 '
+    ctx.rule = ('a case is one history of Execute/ExecuteContext calls on ONE interp.New(program) -- each run one of 43 '
                 'kinds (plain, sets globals/array, sets FS RS OFS ORS CONVFMT OFMT SUBSEP, CSV header, sets INPUTMODE/'
                 'OUTPUTMODE, leaves an output stream open, exit 3, error in a function in a loop, error in for-in, '
                 'cancelled mid-function, rand() x3, rand() srand(5) rand(), getline<file to mid-file, match(), I/O probe, '
@@ -221,17 +229,18 @@ def run(ctx):
                 'error in END, exit 5 followed by a cancellation in END; system("exit 3"), "echo hi" | getline; never rand(), '
                 'srand(7) before the first rand(), srand(9) only, srand() from the clock; writes ARGV[5] and ENVIRON["token"], '
                 'deletes ARGV[2] and ENVIRON["home"]; opens the range pattern and closes it / leaves it open to the end of '
-                'input / nextfile / getline in the body / next / exit 3 / run-time error / cancellation inside the range) x 8 '
-                'configurations (zero Config + Execute / Vars FS + OutputMode + file operand + ExecuteContext whose context is '
+                'input / nextfile / getline in the body / next / exit 3 / run-time error / cancellation inside the range; %c through a format string built at run time; '
+                'Vars-depth nested calls of a user function ending in return / division by zero / exit 3 / cancellation at the '
+                'bottom) x 12 configurations (zero Config + Execute / Vars FS + OutputMode + file operand + ExecuteContext whose context is '
                 'cancelled when the call has returned / InputMode csv header / ExecuteContext whose context expires when the '
                 'call has returned / ExecuteContext(Background) / Argv0 + three assignment operands + Environ home lang / one '
-                'operand + Environ user + Chars / NoExec NoFileWrites NoFileReads NoArgVars), every run with a standard input '
+                'operand + Environ user + Chars / NoExec NoFileWrites NoFileReads NoArgVars / Vars depth = 400, 700, 1000, 1001), every run with a standard input '
                 'of its own, with ResetVars/ResetRand variants -- exported by TLC from Gen_Reuse (families reuse, stdin, exit, '
-                'ctx, range, rand, args, flags) with the predicted output, status and error class, or one 5-12 operation '
+                'ctx, range, rand, args, flags, fmt, depth) with the predicted output, status and error class, or one 5-12 operation '
                 'random history recorded from the real interpreter; distinct by content; non-trivial when the judged run '
                 'executes on an interpreter that already ran')
     ctx.assumptions += [
-        'one AWK program with 38 modes (an Interpreter is tied to one program); every mode prints a fingerprint of all '
+        'one AWK program with 43 modes (an Interpreter is tied to one program); every mode prints a fingerprint of all '
         'state visible in BEGIN (globals, array element, FS..SUBSEP, CONVFMT/OFMT effects, NR FNR NF $0 FILENAME RSTART '
         'RLENGTH RT INPUTMODE OUTPUTMODE, length of a two-byte character, ARGC, ARGV below ARGC, ARGV and ENVIRON and '
         'FIELDS enumerated completely with for-in in key order, ARGV[ARGC], ARGV[ARGC+1], rand(), a print line) before '
@@ -254,6 +263,17 @@ def run(ctx):
         '`var=value` operand that names a program variable (c5: g=G5) must be carried out in the run after a NoArgVars run. '
         'NOT varied between runs: NewlineOutput, ShellCommand, OpenFile, Error, CSV separators/comment characters '
         '(setExecuteConfig assigns each of them unconditionally)',
+        'formatted output: every run formats with printf and sprintf using format strings that are the same text in every '
+        'run (%c of 233, of 65, of strings starting with a two- and a three-byte character; %s of 0.1234567; %d of 3.9), the kind '
+        'fmtc with a format string concatenated at run time; what %c yields follows Config.Chars of the run that executes it '
+        '(as documented for Config.Chars: printf %c counts chars instead of bytes), %s of a number its CONVFMT. %c of numbers '
+        'above 255 without Chars is not generated (the byte conversion is not specified)',
+        'nested calls: a NEW interpreter allows 1000 nested calls of user-defined functions and reports the call that '
+        'would be one more as a run-time error (constant CallLimit of the model, checked against the code by the first run of '
+        'every history); calls a run was aborted in (run-time error, exit, cancellation at the bottom of a recursion 400 / 700 / '
+        '1000 deep, runaway recursion stopped at the limit) are not pending in later runs: a probe nests 3 / 700 / 1000 calls '
+        'successfully and fails at 1001 whatever came before. The recorder never starts a history with exit executed 1000 '
+        'calls deep (the END block that follows calls a function; a deviation there would be one of a new interpreter)',
         'error texts are not compared, only the class none / error / context.Canceled / context.DeadlineExceeded; text '
         'written to Config.Error is not compared',
         'a disagreement in the first run of a history (new interpreter) is reported as a machinery error, not as a verdict',
@@ -280,10 +300,12 @@ def run(ctx):
         if q:
             mc2 = ctx.cfg('MC_Reuse', name='MC_Reuse_quick_new', constants=MC_QUICK_NEW)
             ctx.tlc('MC_Reuse', mc2, timeout=2400, heap='4g')
+            mc3 = ctx.cfg('MC_Reuse', name='MC_Reuse_quick_r3', constants=MC_QUICK_R3)
+            ctx.tlc('MC_Reuse', mc3, timeout=2400, heap='4g')
         if not q:
             mc2 = ctx.cfg('MC_Reuse', name='MC_Reuse_new', constants=MC_THOROUGH_NEW)
             ctx.tlc('MC_Reuse', mc2, timeout=2400, heap='4g')
-            for nm, consts in (('r2a', MC_THOROUGH_R2A), ('r2b', MC_THOROUGH_R2B)):
+            for nm, consts in (('r2a', MC_THOROUGH_R2A), ('r2b', MC_THOROUGH_R2B), ('r3', MC_QUICK_R3)):
                 mc3 = ctx.cfg('MC_Reuse', name=f'MC_Reuse_{nm}', constants=consts)
                 ctx.tlc('MC_Reuse', mc3, timeout=2400, heap='4g')
             # The model must be able to fail, and must agree with the code on which clears of resetCore matter:
@@ -291,17 +313,17 @@ def run(ctx):
             # scanners map (getline < "-"), the context of an earlier call or the flags of the range patterns (a local of
             # execActions) TLC violates an invariant; clearing the stack pointer is redundant (nested calls restore it).
             verdicts = {}
-            for f in ('hdr', 'status', 'outs', 'dash', 'ctx', 'range', 'sp'):
-                base = MC_QUICK_NEW if f == 'range' else MC_QUICK
+            for f in ('hdr', 'status', 'outs', 'dash', 'ctx', 'range', 'depth', 'sp'):
+                base = MC_QUICK_NEW if f == 'range' else MC_QUICK_R3 if f == 'depth' else MC_QUICK
                 c = ctx.cfg('MC_Reuse', name=f'MC_Reuse_no_{f}', constants=dict(base, Clears=tla_set([x for x in CORE if x != f])))
                 r = ctx.tlc('MC_Reuse', c, timeout=900, heap='4g', allow_fail=True, label=f'MC_Reuse without clearing {f}')
                 if r['rc'] == 124:
                     raise MachineryError('TLC timed out on the load-bearing analysis')
                 verdicts[f] = not r['ok']
             ctx.notes.append('resetCore clears in the model: without "hdr", "status", "outs", "dash" (the scanners map), "ctx" '
-                             '(switching context checking off) or "range" (range flags new for every pass over the input) TLC '
-                             'violates an invariant; without "sp" it does not (redundant): ' + str(verdicts))
-            if not all(verdicts[f] for f in ('hdr', 'status', 'outs', 'dash', 'ctx', 'range')) or verdicts['sp']:
+                             '(switching context checking off), "range" (range flags new for every pass over the input) or "depth" '
+                             '(calls an aborted run was in are not pending in the next) TLC violates an invariant; without "sp" it does not (redundant): ' + str(verdicts))
+            if not all(verdicts[f] for f in ('hdr', 'status', 'outs', 'dash', 'ctx', 'range', 'depth')) or verdicts['sp']:
                 raise MachineryError('model lost its teeth (or gained false ones): ' + str(verdicts))
     # 2. spec -> code
     if q:
@@ -314,9 +336,9 @@ def run(ctx):
         sim = ctx.cfg('Gen_Reuse', name='Gen_Reuse_sim', constants={'Fams': '{"reuse"}', 'MaxRuns': 6, 'RunKinds': ALL_KINDS, 'RunCfgs': ALL_CFGS,
                                                                      'LastKinds': ALL_KINDS, 'LastCfgs': ALL_CFGS, 'ResetsAnywhere': 'TRUE'})
         # in simulation mode TLC evaluates (and so exports) every successor of every state on a walk: one walk of
-        # 6 runs yields ~7000 histories (each prefix of the walk extended by every possible next run: 38 kinds x 8
+        # 6 runs yields ~12000 histories (each prefix of the walk extended by every possible next run: 43 kinds x 12
         # configurations x 4 reset variants)
-        ctx.tlc('Gen_Reuse', sim, capture='cases.ndjson', simulate=10, depth=7, workers=1, timeout=1800)
+        ctx.tlc('Gen_Reuse', sim, capture='cases.ndjson', simulate=6, depth=7, workers=1, timeout=1800)
     ctx.cov['exhaustive'] = True
     ctx.replay('cases.ndjson', label='gen-reuse', min_cases=1000, selftest=False)
     gate_fresh_model(ctx)
